@@ -266,8 +266,9 @@ func addParameterMetaInfo(segs []*routeSegment) []*routeSegment {
 			comparePart = segs[i].Const
 			// the trailing slash is only optional at the end of the route or in front of an optional parameter,
 			// everywhere else it belongs to the constant the parameter search looks for
-			if len(comparePart) > 1 && (i == segLen-1 || segs[i+1].IsOptional) {
-				comparePart = utils.TrimRight(comparePart, slashDelimiterStr)
+			// (one slash: "//" keeps "/" - an empty compare part finds the end of no parameter)
+			if len(comparePart) > 1 && comparePart[len(comparePart)-1] == slashDelimiter && (i == segLen-1 || segs[i+1].IsOptional) {
+				comparePart = comparePart[:len(comparePart)-1]
 			}
 		}
 	}
